@@ -310,6 +310,7 @@ pub fn run(modelrun: &str) {
         let mut steps: u64 = 0;
         let budget: u64 = 20000;
         let mut taken: Vec<usize> = Vec::new();
+        let mut enabled_log: Vec<String> = Vec::new();
         let mut snaps: Vec<String> = Vec::new();
         loop {
             let mut st = sc.st.lock().unwrap();
@@ -360,6 +361,7 @@ pub fn run(modelrun: &str) {
                 enabled[0]
             };
             taken.push(pick);
+            enabled_log.push(enabled.iter().map(|t| t.to_string()).collect::<Vec<_>>().join("."));
             steps += 1;
             st.granted = Some(pick);
             sc.cv.notify_all();
@@ -387,6 +389,7 @@ pub fn run(modelrun: &str) {
             }
         }
         out::line(&format!("K {}", taken.iter().map(|t| t.to_string()).collect::<Vec<_>>().join(",")));
+        out::line(&format!("N {}", enabled_log.join(",")));
         if aborted {
             out::line("Q aborted");
             out::flush();
